@@ -8,7 +8,7 @@ import vlib
 
 THEOREM_FILES = ['C05', 'C05pp']
 ASSUMPTIONS = ['MIN % -1 is treated as an error like MIN / -1 (Rust checked_rem; decision recorded in DESIGN.md)',
-               'the parse side: C05pp.parse_print (theorem, rendering without blanks) + the operator-table Gen obligation (op_table_documented) + this correspondence (which adds blanks, radices and letter case)']
+               'the parse side: C05pp.parse_print / parse_print_spaced (theorems: minimal parentheses, and any blanks and further parentheses) + the operator-table Gen obligation (op_table_documented) + this correspondence (which adds blanks, radices and letter case)']
 
 BIN = [('lor', '||', 1), ('land', '&&', 2), ('bor', '|', 3), ('bxor', '^', 4), ('band', '&', 5), ('eq', '==', 6), ('ne', '!=', 6),
        ('lt', '<', 7), ('le', '<=', 7), ('gt', '>', 7), ('ge', '>=', 7), ('shl', '<<', 8), ('shr', '>>', 8), ('add', '+', 9), ('sub', '-', 9),
